@@ -8,6 +8,12 @@ from vf.lab import ctl as C
 from vf.lab import dbx
 
 
+def _fresh(prog):
+    from vf.lab.progs import fresh
+
+    return fresh(prog)
+
+
 def demand(sub) -> dict:
     """Units a submission needs per resource, from its `limits` option as documented
     (docs/source/config.md: a list means one unit of each named resource)."""
@@ -27,6 +33,7 @@ class Run:
         self.max_waiting = 0
         self.waited = 0             # number of times a job was parked for limits
         self.release_kinds: set = set()
+        self.jobs: list = []         # every scheduler Job created during the run
 
 
 def run_program(prog, decisions=(), limits: Optional[dict] = None, fine=False, backend=None,
@@ -62,8 +69,18 @@ def run_program(prog, decisions=(), limits: Optional[dict] = None, fine=False, b
         return orig_add(job, eval_args)
 
     sched._add_job_pending_limits = counting_add
+    import redun.scheduler as S
+
+    orig_job = S.Job
+
+    class TrackedJob(S.Job):
+        def __init__(self, *a, **k):
+            super().__init__(*a, **k)
+            r.jobs.append(self)
+
+    S.Job = TrackedJob
     try:
-        e = expr if expr is not None else vf_tasks.node(prog, {})
+        e = expr if expr is not None else vf_tasks.node(_fresh(prog), {})
         try:
             v = sched.run(e, **(run_kwargs or {}))
             r.kind, r.payload = "ok", v
@@ -74,6 +91,7 @@ def run_program(prog, decisions=(), limits: Optional[dict] = None, fine=False, b
         except Exception as ex:  # noqa: BLE001 - the program's own failure is an outcome
             r.kind, r.payload = "err", ex
     finally:
+        S.Job = orig_job
         if own_backend and not keep_backend:
             dbx.discard_backend(sched.backend)
     return r
